@@ -54,7 +54,12 @@ pub fn check_component<C: BitRepr>(
                 fail("counting sink", format!("{b} bits"));
             }
         }
-        Ok(Err(e)) => fail("counting sink", format!("error {e}")),
+        Ok(Err(_)) => {
+            // a component whose serialisation is refused (range error) has no written size to
+            // compare; whether its constructor should have refused it is C18's subject
+            local.count("components_whose_write_is_refused", 1);
+            return None;
+        }
         Err(p) => fail("counting sink", format!("panic {}", p.describe())),
     }
     if count <= MAX_MATERIALISED_BITS {
@@ -292,22 +297,33 @@ fn run_residual_grid(rep: &Arc<Report>, thorough: bool, only: Option<ResCase>) {
 
 fn header_numbers() -> Vec<(bool, u64)> {
     let mut v = Vec::new();
-    for b in [0u32, 7, 11, 16, 21, 26, 31, 36] {
+    for b in [0u32, 7, 11, 16, 21, 26, 31, 32, 36] {
         let c = if b == 0 { 0u64 } else { 1u64 << b };
         for d in 0..=64u64 {
             for n in [c.saturating_sub(d), c + d] {
-                if n < (1 << 31) {
+                // values the format cannot carry (frame numbers >= 2^31, sample numbers >= 2^36)
+                // are included: if the constructor accepts them the write is refused, and the
+                // components written after them on the same thread must still be exact
+                if n <= u32::MAX as u64 {
                     v.push((false, n));
                 }
-                if n < (1 << 36) {
-                    v.push((true, n));
-                }
+                v.push((true, n));
             }
         }
     }
     v.sort();
     v.dedup();
-    v
+    // interleave refused and valid values (a stale scratch buffer shows on the next write)
+    let (bad, good): (Vec<_>, Vec<_>) = v.into_iter().partition(|(var, n)| if *var { *n >= (1 << 36) } else { *n >= (1 << 31) });
+    let mut out = Vec::new();
+    let mut bi = bad.iter().cycle();
+    for (i, g) in good.iter().enumerate() {
+        if i % 5 == 0 && !bad.is_empty() {
+            out.push(*bi.next().unwrap());
+        }
+        out.push(*g);
+    }
+    out
 }
 
 fn run_headers_and_metadata(rep: &Arc<Report>) {
